@@ -12,16 +12,16 @@ def check(run, replay):
         qc.model_check_laws(run, thorough)
     n = 20000 if thorough else 2500
     cases = qc.gen_cases(run, n, 5, "a")
-    viol, executed, used = [], 0, 0
+    viol, executed, used, tts = [], 0, 0, 0
     samples = []
-    plans = [(["-indexes", "all", "-churn"], "early+history"), (["-indexes", "all", "-late"], "late"), (["-indexes", "all"], "early")]
+    plans = [(["-indexes", "all", "-churn"], "early+history"), (["-indexes", "all", "-late", "-timetravel", "3"], "late"), (["-indexes", "all", "-timetravel", "5"], "early")]
     for extra, name in plans:
         try:
             res = qc.run_cases(run, binary, cases, extra, None if thorough else "55s")
         except vlib.Crash as c:
             viol.append({"property": "C07", "kind": "node-panic", "msg": "DefraDB died while answering an index-served query (%s): %s\n%s" % (name, c.head, c.stack[:1500])})
             continue
-        executed += res["executed"]; used += res.get("index_used", 0)
+        executed += res["executed"]; used += res.get("index_used", 0); tts += res.get("time_travel_queries", 0)
         for v in qc.to_violations("C07", res):
             v["msg"] = "[%s] %s" % (name, v["msg"])
             viol.append(v)
@@ -31,7 +31,7 @@ def check(run, replay):
         raise vlib.Infra("no executed query was served from an index (vacuous run)")
     L = [json.loads(json.loads(l)) for l in open(cases).read().strip().split("\n")[:2]]
     samples = [{"docs": c["docs"], "q": c["q"], "expect": c["expect"]} for c in L]
-    cov = {"traces_validated_against_impl": executed, "list_queries_served_from_an_index": used, "samples": samples,
+    cov = {"traces_validated_against_impl": executed, "list_queries_served_from_an_index": used, "time_travel_filter_queries": tts, "samples": samples,
            "index_sets": ["i asc", "i desc", "s asc", "s desc + b", "composite(s,i)", "composite(i desc,s)", "j asc", "j desc", "composite(j,s)", "unique k + j + s + i + b"],
            "rule": "QueryGen cases (see C08) executed on a node with one of 10 index sets (rotating), indexes created before the data, after the data, and with the contents reached through creates, updates and a delete; the result must equal Result(docs,q) of spec/Query.tla, which does not know about indexes"}
     run.finish("model_checking", viol, cov,
